@@ -62,6 +62,8 @@ type c04In struct {
 	Script   []c04Frame
 	WFails   []int    // indices of the writes that fail (scripted mode only)
 	Staked   [][]byte // addresses the registry confirms
+	// handshakes run before this one on the same Service (same local configuration); not emitted
+	Prelude []c04In `json:",omitempty"`
 }
 
 // ---- observation -----------------------------------------------------------------------------------
@@ -75,7 +77,7 @@ type c04W struct {
 type c04Wrap struct {
 	Registered bool
 	Notified   []c04Note
-	Block      int64 // -1 none, 0 for ever, else nanoseconds (rounded up to a minute)
+	Block      int64 // -1 none, 0 for ever, else nanoseconds (rounded up to a minute); -3 not observable
 }
 
 type c04Note struct {
@@ -334,18 +336,42 @@ func c04LocalOf(in c04In) (ks *mockkeysigner.MockKeySigner, l c04Local) {
 	return
 }
 
-func c04RunScripted(in c04In) (obs c04Obs) {
+// One long-lived handshake.Service (as in a running node) on which the handshakes of a session are
+// run one after the other: Prelude first (their observations are dropped), then the case itself.
+// The model is a function of the single handshake only, so state carried from one handshake to the
+// next inside the implementation shows up as a mismatch.
+type c04Env struct {
+	sg  *c04Signer
+	reg *c04Registry
+	svc *handshake.Service
+}
+
+func c04NewEnv(in c04In) (*c04Env, error) {
 	ks, _ := c04LocalOf(in)
-	sg := &c04Signer{inner: signer.New()}
-	reg := &c04Registry{staked: in.Staked}
+	env := &c04Env{sg: &c04Signer{inner: signer.New()}, reg: &c04Registry{}}
+	svc, err := handshake.New(ks, p2p.PeerType(in.OwnType), in.OwnToken, env.sg, env.reg, c04GetEthAddress)
+	if err != nil {
+		return nil, err
+	}
+	env.svc = svc
+	return env, nil
+}
+
+func (env *c04Env) step(in c04In) (obs c04Obs) {
+	env.sg.mu.Lock()
+	env.sg.calls = nil
+	env.sg.mu.Unlock()
+	env.reg.mu.Lock()
+	env.reg.staked, env.reg.lookups = in.Staked, nil
+	env.reg.mu.Unlock()
 	st := &c04Stream{in: in.Script, wfails: map[int]bool{}}
 	for _, k := range in.WFails {
 		st.wfails[k] = true
 	}
 	fill := func() {
 		obs.Written = st.out
-		obs.Lookups = reg.taken()
-		obs.Verifies = sg.calls
+		obs.Lookups = env.reg.taken()
+		obs.Verifies = env.sg.calls
 	}
 	defer func() {
 		if r := recover(); r != nil {
@@ -353,15 +379,12 @@ func c04RunScripted(in c04In) (obs c04Obs) {
 			fill()
 		}
 	}()
-	svc, err := handshake.New(ks, p2p.PeerType(in.OwnType), in.OwnToken, sg, reg, c04GetEthAddress)
-	if err != nil {
-		return c04Obs{Res: 9, Note: "handshake.New: " + err.Error()}
-	}
 	var p *p2p.Peer
+	var err error
 	if in.Dir == 0 {
-		p, err = svc.Handle(context.Background(), st, core.PeerID(in.PeerID))
+		p, err = env.svc.Handle(context.Background(), st, core.PeerID(in.PeerID))
 	} else {
-		p, err = svc.Handshake(context.Background(), core.PeerID(in.PeerID), st)
+		p, err = env.svc.Handshake(context.Background(), core.PeerID(in.PeerID), st)
 	}
 	if err != nil {
 		obs.Res = c04Class(err)
@@ -375,6 +398,17 @@ func c04RunScripted(in c04In) (obs c04Obs) {
 	}
 	fill()
 	return obs
+}
+
+func c04RunScripted(in c04In) (obs c04Obs) {
+	env, err := c04NewEnv(in)
+	if err != nil {
+		return c04Obs{Res: 9, Note: "handshake.New: " + err.Error()}
+	}
+	for _, p := range in.Prelude {
+		env.step(p)
+	}
+	return env.step(in)
 }
 
 // ---- Coq term ----------------------------------------------------------------------------------------
@@ -511,21 +545,27 @@ func c04AdvHost(in c04In) (host.Host, error) {
 		golibp2p.DisableRelay())
 }
 
-func c04BlockOf(svc *libp2p.Service) int64 {
-	bl := svc.BlockedPeers()
-	if len(bl) == 0 {
-		return -1
+func c04BlockOf(svc *libp2p.Service, addr []byte) int64 {
+	if addr == nil {
+		// BlockedPeers skips peer ids without an Ethereum address: a block on them cannot be seen
+		return -3
 	}
-	if bl[0].Duration == "Forever" {
-		return 0
+	for _, b := range svc.BlockedPeers() {
+		if !bytes.Equal(b.Peer.Bytes(), addr) {
+			continue
+		}
+		if b.Duration == "Forever" {
+			return 0
+		}
+		d, err := time.ParseDuration(b.Duration)
+		if err != nil {
+			return -2
+		}
+		// remaining time of a block placed moments ago: round up to the whole minute
+		m := (d + time.Minute - 1) / time.Minute
+		return int64(m * time.Minute)
 	}
-	d, err := time.ParseDuration(bl[0].Duration)
-	if err != nil {
-		return -2
-	}
-	// remaining time of a block placed moments ago: round up to the whole minute
-	m := (d + time.Minute - 1) / time.Minute
-	return int64(m * time.Minute)
+	return -1
 }
 
 // c04Frames collects, in order, the frames the subject wrote on the handshake stream.
@@ -579,11 +619,10 @@ func c04RunE2E(in c04In, slow int) (obs c04Obs, err error) {
 		slow = 1
 	}
 	ks, _ := c04LocalOf(in)
-	reg := &c04Registry{staked: in.Staked}
+	reg := &c04Registry{}
 	svc, err := libp2p.New(&libp2p.Options{
 		KeySigner: ks, Secret: in.OwnToken, PeerType: p2p.PeerType(in.OwnType), Register: reg,
 		ListenPort: 0, ListenAddr: "127.0.0.1", Logger: slog.New(slog.NewTextHandler(io.Discard, nil)),
-		// without a registry the failure branches of handleConnectReq / Connect dereference nil counters
 		MetricsReg: prometheus.NewRegistry(),
 	})
 	if err != nil {
@@ -592,11 +631,45 @@ func c04RunE2E(in c04In, slow int) (obs c04Obs, err error) {
 	defer svc.Close()
 	nt := &c04Notifier{ch: make(chan struct{}, 8)}
 	svc.SetNotifier(nt)
+	// the handshakes of a session run one after the other on this one Service
+	for _, p := range in.Prelude {
+		if _, err := c04E2EStep(svc, nt, reg, p, slow); err != nil {
+			return obs, fmt.Errorf("prelude: %w", err)
+		}
+	}
+	return c04E2EStep(svc, nt, reg, in, slow)
+}
+
+func c04E2EStep(svc *libp2p.Service, nt *c04Notifier, reg *c04Registry, in c04In, slow int) (obs c04Obs, err error) {
+	nt.mu.Lock()
+	nt.notes = nil
+	nt.mu.Unlock()
+	for len(nt.ch) > 0 {
+		<-nt.ch
+	}
+	reg.mu.Lock()
+	reg.staked, reg.lookups = in.Staked, nil
+	reg.mu.Unlock()
 	adv, err := c04AdvHost(in)
 	if err != nil {
 		return obs, fmt.Errorf("adversary host: %w", err)
 	}
-	defer adv.Close()
+	advAddr, advHasAddr := c04TruthPid(in.PeerID)
+	registered := func() bool {
+		if !advHasAddr {
+			return false
+		}
+		_, err := svc.GetPeerInfo(p2p.Peer{EthAddress: common.BytesToAddress(advAddr)})
+		return err == nil
+	}
+	defer func() {
+		// leave the Service without this remote before the next handshake of the session
+		adv.Close()
+		until := time.Now().Add(time.Duration(3*slow) * time.Second)
+		for registered() && time.Now().Before(until) {
+			time.Sleep(2 * time.Millisecond)
+		}
+	}()
 	if !bytes.Equal([]byte(adv.ID()), in.PeerID) {
 		return obs, fmt.Errorf("input inconsistent: PeerID is not the id of PeerKey")
 	}
@@ -609,17 +682,9 @@ func c04RunE2E(in c04In, slow int) (obs c04Obs, err error) {
 	if !ok || len(subjAddrs) == 0 {
 		return obs, fmt.Errorf("subject has no addresses")
 	}
-	advAddr, advHasAddr := c04TruthPid(in.PeerID)
 	frames := &c04Frames{}
 	ctx, cancel := context.WithTimeout(context.Background(), time.Duration(10*slow)*time.Second)
 	defer cancel()
-	registered := func() bool {
-		if !advHasAddr {
-			return false
-		}
-		_, err := svc.GetPeerInfo(p2p.Peer{EthAddress: common.BytesToAddress(advAddr)})
-		return err == nil
-	}
 
 	if in.Mode == 1 {
 		// the remote dials the subject and plays the script in lock step
@@ -661,11 +726,11 @@ func c04RunE2E(in c04In, slow int) (obs c04Obs, err error) {
 		if len(notes) == 0 {
 			// refused: the block (if any) is placed right after the connection was closed
 			until := time.Now().Add(time.Duration(300*slow) * time.Millisecond)
-			for time.Now().Before(until) && len(svc.BlockedPeers()) == 0 {
+			for time.Now().Before(until) && c04BlockOf(svc, advAddr) < 0 && advHasAddr {
 				time.Sleep(3 * time.Millisecond)
 			}
 		}
-		w := &c04Wrap{Registered: registered(), Notified: notes, Block: c04BlockOf(svc)}
+		w := &c04Wrap{Registered: registered(), Notified: notes, Block: c04BlockOf(svc, advAddr)}
 		obs.Wrap = w
 		switch {
 		case len(notes) > 0:
@@ -715,7 +780,7 @@ func c04RunE2E(in c04In, slow int) (obs c04Obs, err error) {
 	default:
 		obs.Res = 8
 	}
-	obs.Wrap = &c04Wrap{Registered: registered(), Notified: nt.taken(), Block: c04BlockOf(svc)}
+	obs.Wrap = &c04Wrap{Registered: registered(), Notified: nt.taken(), Block: c04BlockOf(svc, advAddr)}
 	obs.Written = frames.taken()
 	obs.Lookups = reg.taken()
 	return obs, nil
@@ -859,14 +924,18 @@ func (g *c04Gen) sigVariant(kind int, rk []byte, role, token string) []byte {
 const c04SigKinds = 15
 
 func (g *c04Gen) random() c04In {
+	return g.randomL([]int{0, 1, 2, 1, 2, 7, -1}[g.r.Intn(7)], g.tokens[g.r.Intn(len(g.tokens))])
+}
+
+// a random transcript for a given local configuration (type, token; key 0)
+func (g *c04Gen) randomL(lt int, ltoken string) c04In {
 	r := g.r
 	dir := r.Intn(2)
-	lt := []int{0, 1, 2, 1, 2, 7, -1}[r.Intn(7)]
 	role := c04Roles[r.Intn(3)]
 	if r.Intn(4) == 0 {
 		role = c04OddRoles[r.Intn(len(c04OddRoles))]
 	}
-	ltoken, rtoken := g.tokens[r.Intn(len(g.tokens))], g.tokens[r.Intn(len(g.tokens))]
+	rtoken := g.tokens[r.Intn(len(g.tokens))]
 	in := g.honest(dir, lt, role, ltoken, rtoken)
 	rk := g.keys[1]
 	if r.Intn(3) == 0 {
@@ -1067,6 +1136,55 @@ func TestVerifC04(t *testing.T) {
 		run("random", g.random())
 	}
 
+	// sessions: several handshakes on one long-lived Service, the registry answer and the remote changing
+	for dir := 0; dir < 2; dir++ {
+		for _, odir := range []int{dir, 1 - dir} {
+			staked := g.honest(odir, 2, "provider", "test", "test")
+			unstaked := g.honest(odir, 2, "provider", "test", "test")
+			unstaked.Staked = nil
+			in := g.honest(dir, 2, "provider", "test", "test")
+			in.Staked = nil
+			in.Prelude = []c04In{staked}
+			run("session-stake-withdrawn", in)
+			in = c04Clone(in)
+			in.Prelude = []c04In{staked, staked, unstaked}
+			run("session-stake-withdrawn", in)
+			in = g.honest(dir, 2, "provider", "test", "test")
+			in.Prelude = []c04In{unstaked}
+			run("session-stake-gained", in)
+			// a refused remote first, then an honest one; and the other way round
+			bad := g.honest(odir, 2, "bidder", "test", "test")
+			bad.Script[bad.reqIdx()].Raw = c04ReqWire([]byte("bidder"), []byte("test"), g.sigVariant(7, rk, "bidder", "test"))
+			in = g.honest(dir, 2, "bidder", "test", "test")
+			in.Prelude = []c04In{bad}
+			run("session-after-refusal", in)
+			in = c04Clone(bad)
+			in.Dir = dir
+			if dir != odir {
+				in.Script[0], in.Script[1] = in.Script[1], in.Script[0]
+			}
+			in.Prelude = []c04In{g.honest(odir, 2, "bidder", "test", "test")}
+			run("session-bad-after-honest", in)
+			// an enrolled remote's request replayed by another transport identity
+			in = g.honest(dir, 2, "provider", "test", "test")
+			in.PeerID = c04PeerIDOf(g.keys[2])
+			in.Prelude = []c04In{staked}
+			run("session-replay-by-other-identity", in)
+			// same remote, role changes from bidder to provider without stake
+			in = g.honest(dir, 2, "provider", "test", "test")
+			in.Staked = nil
+			in.Prelude = []c04In{g.honest(odir, 2, "bidder", "test", "test")}
+			run("session-role-upgrade-unstaked", in)
+		}
+	}
+	for i := 0; i < e.N/3; i++ {
+		in := g.random()
+		for k := 1 + e.rng.Intn(3); k > 0; k-- {
+			in.Prelude = append(in.Prelude, g.randomL(in.OwnType, in.OwnToken))
+		}
+		run("session-random", in)
+	}
+
 	// end to end: a real libp2p.Service (handleConnectReq / Connect) against a raw host
 	for mode := 1; mode <= 2; mode++ {
 		dir := mode - 1
@@ -1101,9 +1219,21 @@ func TestVerifC04(t *testing.T) {
 		in = mk("bidder")
 		in.PeerKey, in.PeerEd, in.PeerID = g.edKey, true, g.edID
 		run("e2e-ed25519-identity", in)
+		in = c04Clone(in)
+		in.Script[in.reqIdx()].Raw = c04ReqWire([]byte("bidder"), []byte("test"), g.sigVariant(7, rk, "bidder", "test"))
+		run("e2e-ed25519-identity-bad-signature", in)
 		in = mk("bidderx")
 		in.Staked = nil
 		run("e2e-odd-role", in)
+		// sessions on one Service: a provider enrolled while staked comes back after losing its stake
+		for _, pmode := range []int{mode, 3 - mode} {
+			first := g.honest(pmode-1, 2, "provider", "test", "test")
+			first.Mode = pmode
+			in = mk("provider")
+			in.Staked = nil
+			in.Prelude = []c04In{first}
+			run("e2e-session-stake-withdrawn", in)
+		}
 	}
 	if e.Tier == "thorough" {
 		for i := 0; i < e.N/100; i++ {
